@@ -20,7 +20,7 @@ EXPLANATION = ("Necessary structural clauses of C06 (not the absence of every pa
                "(R6) subtractions on file-derived offsets/sizes are dominated by the matching comparison. Cells that fail on the pinned "
                "tree are genuine defects listed one by one in known_findings.json; any other cell failing is a new violation."
                " (R3 cell assert_slice_crc) every slice index on the CRC path, taken also when damage has been detected, is bounded by the length of the slice it indexes; (R5 arith) no unguarded panicking arithmetic on values parsed before any CRC was verified."
-               ' Added later: (R8) no statically resolved call cycle in code that reads files; (R9) under block_check = Crc32 every path of Source::cut verifies (= C05-R2); (R10) the error of a block parse ends the operation (no error arm that goes on or spins). (R11) reader code starts no thread of its own.')
+               ' Added later: (R8) no statically resolved call cycle in code that reads files; (R9) under block_check = Crc32 every path of Source::cut verifies (= C05-R2); (R10) the error of a block parse ends the operation (no error arm that goes on or spins). (R11) reader code starts no thread of its own. (R7) also the match form of a swallowed error; (R12) no Result<_, Error | io::Error> of the reader is unwrapped or expected, except right-sized in-memory integer reads.')
 ASSUMPTIONS = ["compiler-inserted bounds checks after a successful length check are not counted", "decompression libraries return Err (not panic) on damaged streams",
                "rustc MIR construction and trait resolution; call graph over-approximates dynamic dispatch"]
 
@@ -473,6 +473,34 @@ def r7_errors_not_swallowed(cx):
                 n += 1
                 cx.ob("R7", "R7/%s@%s" % (f["name"], nm.split("::")[-1]), False, f,
                       "an error value is discarded by %s: damage reported by a lower layer becomes None/default instead of an Err" % nm, ln=t.get("ln"))
+    # the same by hand: `match call() { Ok(v) => .., Err(_) => <go on> }` -- the Err arm of a Result<_, Error> returned by
+    # a call reaches a normal return (or the call again) without building an Err value on the way
+    m = 0
+    for f in F.live_fns:
+        if "blocks" not in f or "creator::" in f["name"] or f["name"].startswith("cmd_utils") or "explorable" in f["name"]:
+            continue
+        b = None
+        for i, blk in enumerate(f["blocks"]):
+            t = blk["t"]
+            if blk.get("cleanup") or t["k"] != "call":
+                continue
+            ty = (t["func"].get("c") or {}).get("ty", "")
+            if not re.search(r"-> std::result::Result<.*(bases::types::error::Error|std::io::Error)>( \{|$)", ty):
+                continue
+            m += 1
+            b = b or F.body(f)
+            errs = {x for x in range(b.n) if any(st["k"] == "assign" and st["rv"]["k"] == "agg" and st["rv"].get("variant") == "Err" for st in b.stmts(x))}
+            lines = error_arms_that_go_on(b, i, errs)
+            if not lines:
+                continue
+            nm = re.sub(r"<.*?>", "", F.effective_owner(f)["name"]).split("::")[-1]
+            if nm in R10_EXEMPT:
+                continue
+            n += 1
+            cx.ob("R7", "R7/%s@match-%s" % (f["name"], re.sub(r"<.*?>", "", callee_str(t)).split("::")[-1]), False, f,
+                  "the Err arm of the match on %s (lines %s) goes on to a normal return: the error becomes None/a default instead of an Err" % (callee_str(t).split("::<")[0], lines), ln=t.get("ln"))
+    if m < 500:
+        raise AnchorLost("fallible calls in the reader: %d" % m)
     cx.ob("R7", "R7/no-swallowed-error", n == 0, "(reader code)", "no Result<_, jubako::Error | io::Error> is converted with ok()/unwrap_or*/is_ok()/err() outside the creator (%d offending sites)" % n)
     cx.ob("R7", "R7/positive-control", control >= 1, "(control)", "the matcher does fire on Result::ok()-style calls (%d sites with other error types)" % control, trivial=True)
     # the directory pack located at open time: an absent pack must not be unwrapped into a panic silently —
@@ -578,6 +606,27 @@ R10_EXEMPT = {
 }
 
 
+def error_arms_that_go_on(b, i, more_exits=()):
+    """lines of the switches on the Result returned by the call ending block `i` whose Err arm can come back to the call
+    or reach a normal return without passing an error exit (through `?` the switch is on Try::branch: not counted)"""
+    handled = []
+    for sw in range(b.n):
+        st = b.term(sw)
+        if st["k"] != "switch" or b.is_cleanup(sw):
+            continue
+        o = b.origins(st["op"], through_calls=False)
+        if ("call", i) not in o:
+            continue       # through `?` the switch is on the result of Try::branch, not on the call itself
+        exits = b.error_blocks() | b.err_return_blocks() | b.panic_blocks() | set(more_exits)
+        # an arm that can come back to this very call, or reach a normal return, without passing an error exit
+        err_arm = st["targets"][st["vals"].index(1)] if 1 in st["vals"] else st["otherwise"]
+        r = b.reachable(err_arm, avoid=exits | {sw})
+        goes_on = (i in r) or any(b.term(x)["k"] == "return" for x in r)
+        if goes_on:
+            handled.append(b.ln(sw))
+    return handled
+
+
 def r10_block_errors_end_the_operation(cx):
     """a block that fails its CRC (or does not parse) is reported: in the reader, the error of `parse_block_at /
     parse_block_in / parse_data_block / parse_in` ends the operation it belongs to. Where the result is handled by hand
@@ -597,25 +646,7 @@ def r10_block_errors_end_the_operation(cx):
             b = b or F.body(f)
             n += 1
             nm = re.sub(r"<.*?>", "", F.effective_owner(f)["name"]).split("::")[-1]
-            handled = []
-            for sw in range(b.n):
-                st = b.term(sw)
-                if st["k"] != "switch" or b.is_cleanup(sw):
-                    continue
-                o = b.origins(st["op"], through_calls=False)
-                if ("call", i) not in o:
-                    continue       # through `?` the switch is on the result of Try::branch, not on the call itself
-                arms = [a for a in dict.fromkeys(st["targets"] + [st["otherwise"]]) if b.term(a)["k"] != "unreachable"]
-                exits = b.error_blocks() | b.err_return_blocks() | b.panic_blocks()
-                for a in arms:
-                    # the arm taken on Err: the one from which the Ok payload is not read
-                    pass
-                # an arm that can come back to this very call, or reach a normal return, without passing an error exit
-                err_arm = st["targets"][st["vals"].index(1)] if 1 in st["vals"] else st["otherwise"]
-                r = b.reachable(err_arm, avoid=exits | {sw})
-                goes_on = (i in r) or any(b.term(x)["k"] == "return" for x in r)
-                if goes_on:
-                    handled.append(b.ln(sw))
+            handled = error_arms_that_go_on(b, i)
             if nm in R10_EXEMPT:
                 cx.ob("R10", "R10/%s/exempt" % nm, True, f, "error of the parse at line %s handled on purpose: %s" % (t.get("ln"), R10_EXEMPT[nm]), ln=t.get("ln"), trivial=True)
                 continue
@@ -646,7 +677,42 @@ def r11_the_reader_starts_no_thread_of_its_own(cx):
     cx.ob("R11", "R11/reader-runs-in-the-calling-thread", not sites and n > 100, "(reader)", "%d reader functions, none starts a thread" % n)
 
 
+def r12_errors_are_not_unwrapped(cx):
+    """'returns a value or an error, never crashes': what the reader's own fallible calls report about damage (a jubako
+    `Error`, an `io::Error`) is a value for the caller. `unwrap()` / `expect()` on such a Result turns the detection of
+    damage into a panic. The only accepted sites read an integer from an in-memory slice that was cut to the integer's
+    size just before (`read_usized` / `read_isized` on a SliceParser): the read cannot be short."""
+    F = cx.F
+    n = 0
+    ok_sites = 0
+    bad = []
+    for f in F.live_fns:
+        if "blocks" not in f or "creator::" in f["name"] or f["name"].startswith(("cmd_utils", "bases::write")) or "explorable" in f["name"]:
+            continue
+        if re.search(r"SeekableDecoder::new::\{closure", f["name"]):
+            continue       # the pool task: R1
+        b = None
+        for i, blk in enumerate(f["blocks"]):
+            t = blk["t"]
+            if blk.get("cleanup") or not call_is(t, r"std::result::Result::<.*(bases::types::error::Error|std::io::Error)>::(unwrap|expect|unwrap_unchecked)$"):
+                continue
+            n += 1
+            b = b or F.body(f)
+            oc = b.origin_calls(t["args"][0], through_calls=False)
+            if oc and all(call_is(ct, r"Parser>::read_(usized|isized)$", r"SliceParser.*::read_(usized|isized)$") for _, ct in oc):
+                ok_sites += 1
+                continue
+            bad.append((f, t.get("ln"), [callee_str(ct).split("::<")[0] for _, ct in oc]))
+    for f, ln, what in bad:
+        cx.ob("R12", "R12/%s/unwrapped-error" % re.sub(r"::\{closure#\d+\}", "", re.sub(r"<.*?>", "", f["name"])).split("::")[-1], False, f,
+              "the Result of %s is unwrapped at line %s: an error about the file becomes a panic" % (what or "a fallible call", ln), ln=ln)
+    if ok_sites < 4:
+        raise AnchorLost("right-sized integer reads that are unwrapped: %d" % ok_sites)
+    cx.ob("R12", "R12/no-error-is-unwrapped", not bad, "(reader)", "%d unwrap/expect of Result<_, Error | io::Error> in reader code, all on right-sized in-memory integer reads" % n)
+
+
 RULES = [
+    ("R12", r12_errors_are_not_unwrapped, 1),
     ("R11", r11_the_reader_starts_no_thread_of_its_own, 1),
     ("R10", r10_block_errors_end_the_operation, 15),
     ("R9", r9_checked_cuts_verify_on_every_path, 1),
